@@ -120,7 +120,7 @@ def run(ctx):
             viol(report, "C20-R1", c0, "not-a-table", str(e))
         # all collections that feed `found` go through filter_map(closure#0)
         fms = []
-        for bb in [g] + [x for x in prog.bodies.values() if x.kind == "Closure" and x.root == g.id]:
+        for bb in [g] + mu.closures_of(prog, g):
             for bi, t in mu.calls(bb, r"^std::iter::Iterator::filter_map$"):
                 fms.append((bb, t))
             for bi, t in mu.calls(bb, r"HashMap::<K, V, S, A>::(iter|values|keys|into_iter)$"):
